@@ -116,22 +116,17 @@ Proof. vm_compute. reflexivity. Qed.
    [regexp_sites]: every regexp.MustCompile / regexp.Compile (and the POSIX variants) in the scanned
    packages, whether it is the panicking Must form and whether its argument is a string literal.
    A MustCompile whose argument is not a constant is a panic site reachable from input unless the
-   pattern is always well-formed.  The only two such sites are pinned:
-   - resolver parsePackageJSON: the pattern comes from globstarToEscapedRegexp, which is balanced and
-     fully escaped for every byte string (theorem globstar_regexp_wellformed) - but it copies bytes
-     >= 0x80 unchanged, so a lone surrogate in the glob (WTF-8) or a directory name that is not UTF-8
-     makes the pattern invalid UTF-8 and MustCompile panics: finding C16-regexp-invalid-utf8 (B);
-   - resolver ResolveGlob: literal parts go through regexp.QuoteMeta, the wildcards are the fixed
-     texts [^/]* and (?:[^/]*(?:/|$))*; same UTF-8 caveat: finding C16-regexp-invalid-utf8 (A).
-   (fix candidates /verif/fixes/C16-A-*.diff, C16-B-*.diff turn both into regexp.Compile) *)
-Definition allowed_mustcompile (s : regexpsite) : bool :=
-  String.eqb (re_pkg s) "internal/resolver" &&
-  (String.eqb (re_func s) "resolverQuery.parsePackageJSON" || String.eqb (re_func s) "Resolver.ResolveGlob").
+   pattern is always well-formed.  There were two (resolver parsePackageJSON on the output of
+   globstarToEscapedRegexp, resolver ResolveGlob on a QuoteMeta'd import pattern); both panicked on
+   patterns holding invalid UTF-8 (finding C16-regexp-invalid-utf8) and were turned into regexp.Compile
+   by fix commits dfdee39 and dbc750e.  Now there is none, and a new one breaks the obligation. *)
+Definition nonconst_mustcompile (s : regexpsite) : bool := re_must s && negb (re_const s).
 
-Lemma mustcompile_sites_all : forall s, In s regexp_sites ->
-  re_must s = true -> re_const s = false -> allowed_mustcompile s = true.
-Proof.
-  assert (H : forallb (fun s => negb (re_must s) || re_const s || allowed_mustcompile s) regexp_sites = true) by (vm_compute; reflexivity).
-  intros s Hin Hm Hc. pose proof (proj1 (forallb_forall _ _) H s Hin) as H1. cbv beta in H1.
-  rewrite Hm, Hc in H1. cbn [negb orb] in H1. exact H1.
-Qed.
+Lemma mustcompile_sites_none : filter nonconst_mustcompile regexp_sites = [].
+Proof. vm_compute. reflexivity. Qed.
+
+(* the input-derived patterns are compiled with the error-returning form *)
+Lemma input_patterns_use_compile :
+  forallb (fun n => existsb (fun s => String.eqb (re_func s) n && negb (re_must s)) regexp_sites)
+          ["resolverQuery.parsePackageJSON"; "Resolver.ResolveGlob"; "validateRegex"; "compileFilter"] = true.
+Proof. vm_compute. reflexivity. Qed.
